@@ -26,6 +26,7 @@ struct Ctx {
     replace_cap: u64,
     replace_ticks: u64,
     live0: isize,
+    mem_cap: isize,
     mem_exceeded: bool,
     ticks: u64,
     sites: Vec<(&'static str, u64)>,
@@ -43,7 +44,7 @@ thread_local! {
     static FILE_LINES: RefCell<Vec<(String, u32)>> = const { RefCell::new(Vec::new()) };
 }
 
-struct FuelExhausted(&'static str);
+struct FuelExhausted(&'static str, bool);
 
 /// a job whose live heap grows beyond this between two ticks is stopped at that tick (unbounded growth)
 pub const MEM_CAP_BYTES: isize = 64 << 20;
@@ -102,16 +103,16 @@ fn tick_cb(site: &'static str) {
                 Some(s) => s.1 += 1,
                 None => ctx.sites.push((site, 1)),
             }
-            if simenv::live_bytes() - ctx.live0 > MEM_CAP_BYTES {
+            if simenv::live_bytes() - ctx.live0 > ctx.mem_cap {
                 ctx.mem_exceeded = true;
             }
-            ctx.ticks > ctx.fuel || ctx.replace_ticks > ctx.replace_cap || ctx.mem_exceeded
+            (ctx.ticks > ctx.fuel || ctx.replace_ticks > ctx.replace_cap || ctx.mem_exceeded, ctx.mem_exceeded)
         } else {
-            false
+            (false, false)
         }
     });
-    if exhausted {
-        resume_unwind(Box::new(FuelExhausted(site)));
+    if exhausted.0 {
+        resume_unwind(Box::new(FuelExhausted(site, exhausted.1)));
     }
     sched_point();
 }
@@ -286,7 +287,8 @@ pub enum Outcome {
     /// structured error: (variant, Debug text)
     Err { variant: &'static str, text: String, filename: String, line: u32 },
     Panic { file: String, line: u32, msg: String },
-    Hang { site: String },
+    /// step budget exhausted (or, with `memory`, live heap grown beyond its cap) at tick site `site`
+    Hang { site: String, memory: bool },
     ArgsRejected(String),
 }
 
@@ -296,7 +298,7 @@ impl Outcome {
             Outcome::Ok => "Ok".into(),
             Outcome::Err { text, .. } => format!("Err {}", text),
             Outcome::Panic { file, line, msg } => format!("PANIC {}:{} {}", file, line, msg),
-            Outcome::Hang { site } => format!("HANG fuel exhausted at {}", site),
+            Outcome::Hang { site, memory } => format!("HANG {} at {}", if *memory { "heap growth beyond the cap" } else { "fuel exhausted" }, site),
             Outcome::ArgsRejected(s) => format!("ArgsRejected {}", s),
         }
     }
@@ -464,6 +466,8 @@ fn run_job(job: &JobSpec, env: &WorkerEnv, sched: &Arc<Sched>, tid: usize, multi
             replace_cap: job.replace_cap(),
             replace_ticks: 0,
             live0: simenv::live_bytes(),
+            // parse trees and ASTs are proportional to the input: the cap grows with it
+            mem_cap: MEM_CAP_BYTES + 4096 * job.source.0.len() as isize,
             mem_exceeded: false,
             ticks: 0,
             sites: Vec::new(),
@@ -500,7 +504,7 @@ fn run_job(job: &JobSpec, env: &WorkerEnv, sched: &Arc<Sched>, tid: usize, multi
                 }
                 Err(payload) => {
                     if let Some(f) = payload.downcast_ref::<FuelExhausted>() {
-                        Outcome::Hang { site: f.0.to_string() }
+                        Outcome::Hang { site: f.0.to_string(), memory: f.1 }
                     } else {
                         let (file, line, msg) = LAST_PANIC
                             .with(|p| p.borrow_mut().take())
